@@ -97,7 +97,8 @@ def run_generic(E, case, prop, fam, forking=True):
         else:
             r["verdict"] = "error"
             r["detail"] = "vacuous harness: preconditions unsatisfiable"
-    if dec.verdict == "sat" and not any(k_ == "bounds" for k_, w_ in dec.failed_obligations):
+    if dec.verdict == "sat" and not any(k_ in ("bounds", "float_detour") for k_, w_ in dec.failed_obligations):
+        # (a failed bounds / float-detour obligation means the model's values are not what the machine computes: only the obligation is reported)
         r["candidates"].append({"signature": f"{prop}:" + fam.signature(case, dec.which), "case": case,
                                 "inputs": jsonable(dec.model), "kind": "property", "labels": dec.which[:6]})
     if dec.failed_obligations:
